@@ -27,7 +27,7 @@ func (S06) Level() string { return "fault_enumeration" }
 func (S06) Info() scen.Info {
 	return scen.Info{
 		Rule: "unit = one seeded stored block (codec x multihash x digest length x value) plus a second block; per unit: a fault-free run records block length, the library's read offsets, the store's write count and the encoder's accessor count; then one run per fault: every truncation length and a bit flip at every offset (all 8 bits for blocks <=64 bytes) for blocks <=512 bytes, read-trace boundaries +-1 and 64 seeded interior offsets for larger ones; 6 extensions; substitution; a read error at every recorded read boundary and seeded interior offsets (sticky/one-shot x with/without data); open error; seeded two-fault sequences; each under 3 chunkings; a write error at every write index, commit error, and an encoder-input failure at every accessor position. Every run performs Load, LoadRaw, LoadPlusRaw and Fill. " +
-			"distinct_nontrivial counts distinct hash(codec, multihash, fault kind, position, chunking, per-function outcome class) over runs whose fault actually fired.",
+			"distinct_nontrivial counts distinct hash(codec, multihash, fault kind, position, chunking, per-function outcome class) over runs whose fault actually fired. Later additions: an ADL-style NodeReifier loading a substituted block through the link system it is handed.",
 		DistinctSet: "fault_case",
 		Assumptions: []string{
 			"the oracle hashes the bytes the simulated reader actually delivered with Go stdlib / x/crypto hashes, never with the library",
